@@ -181,6 +181,10 @@ fn gen_sets(prop: &str, tier: &str) -> Vec<ProgSet> {
             for (k, op) in [(Kind::A, MakeMutW), (Kind::A, MakeUniqueW), (Kind::O, MakeMutW)] {
                 writers.push(Program { init: k, ops: vec![op] });
             }
+            // moving the value out (and then writing to it) is the strongest grant of all
+            for op in [TryUnwrap, TryUniqueInner, UnwrapOrClone] {
+                writers.push(Program { init: Kind::A, ops: vec![op] });
+            }
             writers.push(Program { init: Kind::MS, ops: vec![DepWriteW] });
             writers.push(Program { init: Kind::MS, ops: vec![DepWriteW, DepWriteW] });
             writers.push(Program { init: Kind::T, ops: vec![WithArcMutW] });
@@ -204,8 +208,10 @@ fn gen_sets(prop: &str, tier: &str) -> Vec<ProgSet> {
                 let rs = readers(thin, w.init == Kind::MS);
                 let fact = format!("{}=true|{}=1|{}=in_place", fact_name(w.ops[0]), fact_name(w.ops[0]), fact_name(w.ops[0]));
                 let nofact = format!("{}=false|{}=0|{}=copied", fact_name(w.ops[0]), fact_name(w.ops[0]), fact_name(w.ops[0]));
+                let unwraps = matches!(w.ops[0], TryUnwrap | TryUniqueInner | UnwrapOrClone);
                 for r in &rs {
-                    sets.push(ProgSet { programs: vec![w.clone(), r.clone()], writer: Some(0), main_reads: false, readers_see_only_v0: true, bound: None, expect_facts: vec![fact.clone(), nofact.clone()] });
+                    let facts = if unwraps { vec![] } else { vec![fact.clone(), nofact.clone()] };
+                    sets.push(ProgSet { programs: vec![w.clone(), r.clone()], writer: Some(0), main_reads: false, readers_see_only_v0: true, bound: None, expect_facts: facts });
                 }
                 for (i, r1) in rs.iter().enumerate() {
                     for r2 in &rs[i..] {
